@@ -20,6 +20,7 @@ from contracts.assumed_aio import _M
 
 class Str:
     """an arbitrary text value.  empty: python bool or z3 Bool; parts: how it splits at its first ':' (None: no colon)"""
+    opaque_value = True          # stands for an unknown value of a library type: foreign contracts do not know it
 
     def __init__(self, label, empty=False, parts=None):
         self.label, self.empty, self.parts = label, empty, parts
